@@ -4,9 +4,11 @@
    on every well-formed table with 1 <= n < 2^31 rows and every accepted attribute list, the value the
    generated function returns is  render_rows sf rs  with one row per requested attribute, in order
    (C17_gen_rows), and in every row
-     - the counts are the number of classes of the column's cells under pandas' hashtable equality
-       (= the number of distinct value ids, a missing value counting as one) and the number of cells
-       with pd.isnull (C17_gen_counts),
+     - the counts are the number of classes of the column's PRESENT cells under pandas' hashtable
+       equality, plus one if a cell is missing (= the number of distinct value ids, a missing value
+       counting as ONE value however it is spelled: None and NaN may both occur) and the number of cells
+       with pd.isnull (C17_gen_counts; when the missing cells are all spelled the same way that is the
+       number of classes of all cells, C17_gen_counts_one_spelling),
      - the comment is the key recommendation iff all values are distinct and none is missing, and the
        ignored-rows warning iff some value is missing (C17_gen_comments),
      - the percentages are within 0.005 + 1e-9 of 100 * count / n (C17_gen_percent; Reals axioms),
@@ -103,16 +105,28 @@ Section Rows.
   Theorem C17_gen_counts : forall a, In a cols ->
     let r := profile_column n (ids a) in
     let cells := col_cells cols rows a in
-    p_u r = Z.of_nat (List.length (uniq_cells cells)) /\ distinct_count (ids a) (p_u r) /\
+    p_u r = Z.of_nat (List.length (uniq_cells (filter present cells))) + (if 0 <? p_m r then 1 else 0) /\
+    distinct_count (ids a) (p_u r) /\
     p_m r = Z.of_nat (List.length (filter cell_missing cells)) /\ missing_count (ids a) (p_m r).
   Proof.
     intros a Ha r cells. destruct Hwf as (_ & _ & Habs). specialize (Habs a Ha).
     destruct (C17_counts n (ids a)) as [Hd Hm]. fold r in Hd, Hm.
     repeat split; try assumption.
-    - subst r cells. unfold profile_column, profile_counts. cbn [p_u].
-      rewrite <- (nunique_abstracts _ _ Habs), nunique_spec. reflexivity.
+    - subst r cells. unfold profile_column, profile_counts. cbn [p_u p_m].
+      rewrite <- (nunique_present_abstracts _ _ Habs). unfold nunique_present. rewrite nunique_spec.
+      reflexivity.
     - subst r cells. unfold profile_column, profile_counts. cbn [p_m].
       rewrite <- (nmissing_abstracts _ _ Habs). reflexivity.
+  Qed.
+
+  (* one spelling of the missing value in the column: the number of classes of ALL cells *)
+  Theorem C17_gen_counts_one_spelling : forall a, In a cols ->
+    one_spelling (col_cells cols rows a) (ids a) ->
+    p_u (profile_column n (ids a)) = Z.of_nat (List.length (uniq_cells (col_cells cols rows a))).
+  Proof.
+    intros a Ha H1. destruct Hwf as (_ & _ & Habs). specialize (Habs a Ha).
+    unfold profile_column, profile_counts. cbn [p_u].
+    rewrite <- (nunique_abstracts _ _ Habs H1), nunique_spec. reflexivity.
   Qed.
 
   (* the comments: key recommendation iff all distinct and none missing; warning iff one is missing *)
@@ -159,7 +173,8 @@ Theorem C17_generated :
       map fst rs = requested cols attrs /\
       forall a r, In (a, r) rs ->
         let cells := col_cells cols rows a in
-        p_u r = Z.of_nat (List.length (uniq_cells cells)) /\ distinct_count (ids a) (p_u r) /\
+        p_u r = Z.of_nat (List.length (uniq_cells (filter present cells))) + (if 0 <? p_m r then 1 else 0) /\
+        distinct_count (ids a) (p_u r) /\
         p_m r = Z.of_nat (List.length (filter cell_missing cells)) /\ missing_count (ids a) (p_m r) /\
         (comment_text sf r = key_text <-> (p_u r = n /\ p_m r = 0)) /\
         ((exists s, comment_text sf r = warn_text s) <-> p_m r > 0) /\
@@ -200,6 +215,7 @@ Qed.
 
 Print Assumptions C17_gen_rows.
 Print Assumptions C17_gen_counts.
+Print Assumptions C17_gen_counts_one_spelling.
 Print Assumptions C17_gen_comments.
 Print Assumptions C17_gen_percent.
 Print Assumptions C17_generated.
